@@ -444,3 +444,24 @@ PROPS['C18'] = dict(
     level_note='This is the property this technique is weakest at (DESIGN section 4, C18). Trusted: ThreadSanitizer; librapidcheck/libgmp are not TSan-instrumented but are used on the main thread only.',
     assumptions=['ThreadSanitizer detects the races it instruments (compiler-inserted loads/stores; not inline asm, not accesses in uninstrumented libraries)'],
 )
+
+def _examples_target():
+    import os
+    repo = os.environ.get('VERIF_REPO', '/repo')
+    exd = os.path.join(repo, 'examples')
+    so = dict(name='examples_dbg',
+              srcs=['harness/examples_shim.cpp'] + [os.path.join(exd, f) for f in ('diffusion.cpp', 'spline-potential.cpp', 'harmonic-oscillator.cpp', 'hydrogen.cpp')],
+              flags=['-std=c++17', '-g', '-O1', '-fsanitize=address,undefined', '-fno-sanitize-recover=undefined', '-D_GLIBCXX_DEBUG',
+                     '-DBSPLINE_INTERPOLATION_USE_EIGEN', '-DBSPLINE_ADD_TEST_CHECKS', '-I' + exd])
+    return T('h_examples', so=so, deps=['harness/examples_shim.cpp'])
+PROPS['C20'] = dict(
+    units=[dict(target=_examples_target(), quick=dict(scale=1.0, timeout=3000), thorough=dict(scale=6.0, shards=8, timeout=14000))],
+    rule=('the example sources are compiled FROM /repo/examples with -D_GLIBCXX_DEBUG + ASan + UBSan + BSPLINE_ADD_TEST_CHECKS behind a C-ABI shim. Diffusion: grids of 2..12 points (uniform, random, strongly non-uniform), whole-grid coefficient splines with positive piecewise-constant values in [1/8, 8] '
+          '(15% constant), boundary values in [-10,10], scale factors 2^k and arbitrary positive rationals; strict sub-window coefficient splines are generated too and must be rejected cleanly with the library exception. Oracle: no sanitizer / checked-STL report; u(front)=start, u(back)=end within 1e-9*max(1,|start|,|end|); '
+          'u unchanged (1e-7 relative) when D is scaled; straight line for constant D (1e-7). Spline potential: grids of 21..41 jittered points (the entry point returns ten states), potentials a x^2 + b sin(w x) + d, constants c in [-1000,1000] added before interpolation or as a constant spline; '
+          'all ten eigenvalues shift by c within 1e-7*(1+|c|+|lambda|). Harmonic oscillator and hydrogen: once per run, n+1/2 (1e-12) and -1/n^2 (5e-12), the suite\'s own tolerances. Observed maxima in metrics_max. Non-trivial: >= 3 nodes or start != end (diffusion, and every clean rejection); c != 0 (potential).'),
+    technique='rapidcheck generation of example inputs; oracle = metamorphic relations of the solvers + sanitizer / checked-STL reports on the example sources themselves',
+    level_text='Generated-input search over the four example entry points with the example code itself instrumented; tolerances are calibrated multiples of the observed worst case (>= 10^3 head-room), not derived. Sampling, not proof.',
+    level_note='Admissible inputs as in DESIGN 6.7. Tolerances calibrated on the repaired tree (metrics_max reports the observed maxima on every run).',
+    assumptions=[SAN, 'Eigen 3 as installed is trusted'],
+)
